@@ -54,21 +54,62 @@ func c19(c *engine.Ctx) {
 		info := f.Info()
 		g := f.Graph()
 		a, b := paramObj(f, 0), paramObj(f, 1)
-		// (1a) exactly one call, to the matching helper, on (a, b)
+		// (1a) exactly one call of the matching helper, on (a, b); other calls only
+		// build the panic value or are the package-local finisher that receives (r, ok)
 		var helper *engine.Site
-		others := 0
+		nHelper := 0
 		for _, s := range f.Calls() {
-			n := s.CalleeName()
-			switch {
-			case n == P+pr.name:
-				if helper == nil {
-					helper = s
-				} else {
-					others++
+			if s.CalleeName() == P+pr.name {
+				helper = s
+				nHelper++
+			}
+		}
+		okHelper, why := false, "no call to "+P+pr.name
+		var lhs []types.Object
+		if helper != nil {
+			lhs = authdLhsObjs(f, helper)
+		}
+		// the finisher: return h(..., r, ..., ok, ...)
+		var fin *engine.Fn
+		var finRes, finOk types.Object
+		if helper != nil && len(lhs) == 2 && lhs[0] != nil && lhs[1] != nil {
+			for _, s := range f.Calls() {
+				fn, _ := s.Callee.(*types.Func)
+				h := p.FnOf(fn)
+				if h == nil || s == helper || h == f {
+					continue
 				}
-			case n == "builtin.panic":
-			default:
-				// calls that only build the panic value (fmt.Sprintf, errors.New…) are fine
+				hops := authdOperands(h)
+				var pr0, po types.Object
+				for i, a := range s.Call.Args {
+					if i >= len(hops) {
+						break
+					}
+					switch engine.ObjOf(info, a) {
+					case lhs[0]:
+						pr0 = hops[i]
+					case lhs[1]:
+						po = hops[i]
+					}
+				}
+				if pr0 != nil && po != nil {
+					if _, inRet := s.Top.(*ast.ReturnStmt); inRet && g.Dominates(helper, s) {
+						fin, finRes, finOk = h, pr0, po
+					}
+				}
+			}
+		}
+		if helper != nil {
+			okHelper, why = true, "calls "+pr.name+"(a, b)"
+			others := 0
+			for _, s := range f.Calls() {
+				n := s.CalleeName()
+				if s == helper || n == "builtin.panic" {
+					continue
+				}
+				if fn, _ := s.Callee.(*types.Func); fin != nil && p.FnOf(fn) == fin {
+					continue
+				}
 				inPanic := false
 				for _, ps := range f.CallsTo("builtin.panic") {
 					if containsExpr(ps.Call, s.Call) {
@@ -79,11 +120,9 @@ func c19(c *engine.Ctx) {
 					others++
 				}
 			}
-		}
-		okHelper, why := false, "no call to "+P+pr.name
-		if helper != nil {
-			okHelper, why = true, "calls "+pr.name+"(a, b)"
-			if others > 0 {
+			if nHelper != 1 {
+				okHelper, why = false, "the matching helper is called more than once"
+			} else if others > 0 {
 				okHelper, why = false, "calls other functions besides the matching helper and panic"
 			} else if len(helper.Call.Args) != 2 || a == nil || b == nil {
 				okHelper, why = false, "helper is not called on the two parameters"
@@ -101,59 +140,84 @@ func c19(c *engine.Ctx) {
 		if helper == nil {
 			continue
 		}
-		lhs := authdLhsObjs(f, helper)
 		if len(lhs) != 2 || lhs[0] == nil || lhs[1] == nil {
 			c.Undecided("wrapper-panics-on-notok", f.Name, "helper results are not bound as `r, ok := X(a, b)`")
 			continue
 		}
-		res, okv := lhs[0], lhs[1]
+		// the body in which panic/return are decided: f itself, or the finisher with (r, ok) as parameters
+		body, res, okv := f, lhs[0], lhs[1]
+		wantDefs := 1
+		if fin != nil {
+			body, res, okv, wantDefs = fin, finRes, finOk, 0
+			// f must return the finisher's value directly
+			for _, rs := range authdReturns(f) {
+				ok1 := false
+				if len(rs.Results) == 1 {
+					if call, isCall := ast.Unparen(rs.Results[0]).(*ast.CallExpr); isCall {
+						if st := f.SiteOf(call); st != nil {
+							if fn, _ := st.Callee.(*types.Func); p.FnOf(fn) == fin {
+								ok1 = true
+							}
+						}
+					}
+				}
+				if !ok1 {
+					body = nil
+				}
+			}
+		}
+		if body == nil {
+			c.Check("wrapper-returns-result", f.Name, f.Pos(), false, "a return does not yield the helper's first result")
+			continue
+		}
+		bi := body.Info()
+		bg := body.Graph()
+		okFact := func(st *engine.Site) (known bool, val bool) {
+			for _, gt := range bg.Gates(st) {
+				for _, fc := range authdFacts(gt) {
+					if id, isID := ast.Unparen(fc.E).(*ast.Ident); isID && bi.ObjectOf(id) == okv {
+						return true, !fc.Neg
+					}
+				}
+			}
+			return false, false
+		}
 		// (1b) panic exactly on !ok
-		panics := f.CallsTo("builtin.panic")
+		panics := body.CallsTo("builtin.panic")
 		good, why := len(panics) > 0, "no panic call: the wrapper cannot report failure"
 		for _, ps := range panics {
-			r := g.CheckedGuard(helper, ps)
-			if !r.OK {
-				good, why = false, "panic is not gated by the helper's ok result: "+r.Why
+			known, val := okFact(ps)
+			if !known || val {
+				good, why = false, "panic is not reached exactly on !ok (the helper's ok result does not gate it with the right polarity)"
 				break
 			}
-			pol := authdOkPolarity(info, r.Cond, okv)
-			// panic must be reached exactly when ok is false
-			if pol == 0 || (pol == +1) == r.OnTrue {
-				good, why = false, "panic is reached on condition `"+engine.ExprString(r.Cond)+"` (taken="+authdBoolStr(r.OnTrue)+"), not exactly on !ok"
-				break
-			}
-			why = "panic gated by `" + engine.ExprString(r.Cond) + "`"
+			why = "panic gated by !ok"
 		}
-		// the ok variable must not be reassigned
-		if len(authdAssignsTo(f, okv)) != 1 {
+		if len(authdAssignsTo(body, okv)) != wantDefs {
 			good, why = false, "the ok result is reassigned"
 		}
 		c.Check("wrapper-panics-on-notok", f.Name, f.Pos(), good, why)
 		// (1c) returns the helper's result on the ok branch
-		rets := authdReturns(f)
+		rets := authdReturns(body)
 		good, why = len(rets) > 0, "no return"
 		for _, rs := range rets {
-			if len(rs.Results) != 1 || engine.ObjOf(info, rs.Results[0]) != res {
+			if len(rs.Results) != 1 || engine.ObjOf(bi, rs.Results[0]) != res {
 				good, why = false, "a return does not yield the helper's first result"
 				break
 			}
-			st := f.SiteOf(rs)
+			st := body.SiteOf(rs)
 			if st == nil {
 				good, why = false, "return not located in the CFG"
 				break
 			}
-			r := g.CheckedGuard(helper, st)
-			pol := 0
-			if r.OK {
-				pol = authdOkPolarity(info, r.Cond, okv)
-			}
-			if !r.OK || pol == 0 || (pol == +1) != r.OnTrue {
+			known, val := okFact(st)
+			if !known || !val {
 				good, why = false, "return is not restricted to the ok branch"
 				break
 			}
 			why = "returns the helper's result only when ok"
 		}
-		if len(authdAssignsTo(f, res)) != 1 {
+		if len(authdAssignsTo(body, res)) != wantDefs {
 			good, why = false, "the result variable is reassigned before being returned"
 		}
 		c.Check("wrapper-returns-result", f.Name, f.Pos(), good, why)
@@ -235,12 +299,14 @@ func c19(c *engine.Ctx) {
 				good, why = false, "return without (value, ok)"
 				break
 			}
-			if bv, isLit := authdIsBoolLit(info, rs.Results[1]); isLit {
-				if !bv {
-					continue // failure: value irrelevant
-				}
+			if bv, isLit := authdIsBoolLit(info, rs.Results[1]); isLit && !bv {
+				continue // failure: value irrelevant
+			}
+			if v, isC := authdConstInt(info, rs.Results[0]); isC {
 				// constant success: must be `0, true` under an operand==0 gate, Mul only
-				v, isC := authdConstInt(info, rs.Results[0])
+				if bv, isLit := authdIsBoolLit(info, rs.Results[1]); !isLit || !bv {
+					isC = false
+				}
 				st := f.SiteOf(rs)
 				zeroGate := false
 				if st != nil {
